@@ -29,6 +29,7 @@
 
 #include "snoopy.h"
 
+#include <errno.h>
 #include <stdio.h>
 #include <stdlib.h>
 #include <unistd.h>
@@ -57,6 +58,7 @@ int snoopy_datasource_eusername (char * const resultBuf, size_t resultBufSize, _
     char          *buffpwd_uid     = NULL;
     long           buffpwdsize_uid = 0;
     int            messageLength  = 0;
+    int            lookupRetVal;
 
     /* Allocate memory */
     buffpwdsize_uid = sysconf(_SC_GETPW_R_SIZE_MAX);
@@ -68,8 +70,23 @@ int snoopy_datasource_eusername (char * const resultBuf, size_t resultBufSize, _
         return snprintf(resultBuf, resultBufSize, "ERROR(malloc)");
     }
 
-    /* Try to get data */
-    if (0 != getpwuid_r(geteuid(), &pwd, buffpwd_uid, buffpwdsize_uid, &pwd_uid)) {
+    /*
+     * Try to get data. ERANGE means that the entry - or any entry the C library
+     * had to read on its way to it - does not fit into the buffer: retry with a
+     * bigger one (the size suggested by sysconf() is only a hint).
+     */
+    lookupRetVal = getpwuid_r(geteuid(), &pwd, buffpwd_uid, buffpwdsize_uid, &pwd_uid);
+    while ((ERANGE == lookupRetVal) && (buffpwdsize_uid < 1048576)) {
+        char *biggerBuf;
+        buffpwdsize_uid *= 2;
+        biggerBuf = realloc(buffpwd_uid, buffpwdsize_uid);
+        if (NULL == biggerBuf) {
+            break;
+        }
+        buffpwd_uid = biggerBuf;
+        lookupRetVal = getpwuid_r(geteuid(), &pwd, buffpwd_uid, buffpwdsize_uid, &pwd_uid);
+    }
+    if (0 != lookupRetVal) {
         messageLength  = snprintf(resultBuf, resultBufSize, "ERROR(getpwuid_r)");
     } else {
         if (NULL == pwd_uid) {
